@@ -36,6 +36,8 @@ structure Quirks where
   retFlatNames : Bool := false
   /-- `decode_output(int)`: the digits of `bin()` are padded on the right -/
   formatOutcomeIntPadRight : Bool := false
+  /-- `format_outcome(out: List[bool], out_len)`: `out += [False] * …` extends the caller's list object -/
+  formatOutcomePadsInPlace : Bool := false
   /-- `DeutschJozsa.decode_output` compares the decoded *value* with `0` -/
   djDecodeEqZero : Bool := false
   /-- `convert_to_dimacs` takes `.args` of a CNF that is a literal or `False` -/
@@ -105,6 +107,7 @@ def Quirks.ofList (l : List String) : Quirks :=
     cseHoistsOverBindings := l.contains "cseHoistsOverBindings"
     retFlatNames := l.contains "retFlatNames"
     formatOutcomeIntPadRight := l.contains "formatOutcomeIntPadRight"
+    formatOutcomePadsInPlace := l.contains "formatOutcomePadsInPlace"
     djDecodeEqZero := l.contains "djDecodeEqZero"
     dimacsAtomCnf := l.contains "dimacsAtomCnf"
     bexpConjoinsIntermediates := l.contains "bexpConjoinsIntermediates"
